@@ -13,5 +13,6 @@ func TestMain(m *testing.M) {
 		"C14mcrew": C14mcrew,
 		"C13mcrew": C13mcrew,
 		"C17glue":  C17glue,
+		"C09mcrew": C09mcrew,
 	})
 }
